@@ -4,6 +4,22 @@ package c15
 // grid x a value set, through fmtnum / fmtifnum (direct), --ofmt and
 // format-values (in-process CLI), against C99 printf rules (Python reference
 // validated against glibc).
+//
+// Two sub-families share the value set, the call paths and the oracle:
+//
+//   - "grid": the semantic cross product flags x {a few widths} x {a few
+//     precisions} x verbs (which flag combination does what to which value).
+//   - "syntax": the SPELLING of the directive, i.e. everything a directive
+//     scanner has to get right before it can even find the verb: the width as
+//     a decimal numeral (every width 1..W, hence every digit as the first
+//     and as a later digit of numerals of one, two and three digits), the
+//     precision as a decimal numeral (every precision 0..P, the bare "." and
+//     numerals with leading zeros), the flags as a sequence (every order of two
+//     distinct flags, doubled flags - which is also how a width "written with
+//     leading zeros" such as %0010d parses in C), and every l/ll length
+//     modifier the usage text of format-values allows on every verb.
+//     C99 7.19.6.1 defines the result as a function of the flag SET, the width
+//     VALUE and the precision VALUE only, which is what the reference computes.
 
 import (
 	"fmt"
@@ -15,7 +31,14 @@ import (
 	"verif/harness/vf"
 )
 
-var fmtVerbs = []string{"d", "x", "X", "o", "b", "e", "E", "f", "g", "G", "s", "lf", "le", "lg", "lld", "llx", "ld", "lx"}
+// Verbs: the conversions of https://pkg.go.dev/fmt the docs defer to, plus the
+// length modifiers the format-values usage text asks for ("Miller integers are
+// long long so you must use formats which apply to long long, e.g. with ll in
+// them"; "Miller floats are double-precision so you must use formats which
+// apply to double, e.g. with l[efg] in them"): l and ll on every integer
+// conversion, l on every floating-point conversion.
+var fmtVerbs = []string{"d", "x", "X", "o", "b", "e", "E", "f", "g", "G", "s", "lf", "le", "lg", "lld", "llx", "ld", "lx",
+	"lX", "llX", "lo", "llo", "lb", "llb", "lE", "lG"}
 
 var fmtInts = []string{"0", "1", "-1", "17", "255", "9223372036854775807", "-9223372036854775808"}
 var fmtFloats = []string{"0.0", "3.25", "-0.5", "1e10", "0.1", "2.5", "1e-5", "123456789.125", "0.5", "1234567.0"}
@@ -47,9 +70,93 @@ type fmtCase struct {
 	f           string
 	flags, verb string
 	size        int
+	fam         string // "grid", or the syntax sub-family: "width", "prec", "flagseq"
+	width, prec string // the numerals as spelled (prec with its leading '.')
 }
 
-func fmtGrid(quick bool) []fmtCase {
+// Bounds of the syntax sub-families.
+func fmtSyntaxBounds(quick bool) (maxWidth, maxPrec, widthFlags, seqLen int) {
+	if quick {
+		return 120, 40, 1, 2
+	}
+	return 200, 99, 2, 3
+}
+
+var fmtSynWidthPrecs = []string{"", ".0", ".3", ".10"}            // precisions crossed with every width numeral
+var fmtSynPrecWidths = []string{"", "5", "10"}                    // widths crossed with every precision numeral
+var fmtSynPrecExtra = []string{".", ".00", ".03", ".010", ".100"} // bare period (= .0), numerals with leading zeros, a three-digit numeral
+var fmtSynSeqWidths = []string{"", "5", "10", "100"}              // widths crossed with every flag sequence
+var fmtSynSeqPrecs = []string{"", ".3"}                           // precisions crossed with every flag sequence
+
+func fmtSyntaxBoundsEvidence(quick bool) map[string]any {
+	maxWidth, maxPrec, widthFlags, seqLen := fmtSyntaxBounds(quick)
+	n := map[string]int{}
+	for _, c := range fmtGrid(quick) {
+		n[c.fam]++
+	}
+	return map[string]any{
+		"width_numerals":           fmt.Sprintf("1..%d", maxWidth),
+		"width_family_flags":       fmt.Sprintf("every set of <= %d flags", widthFlags),
+		"width_family_precisions":  fmtSynWidthPrecs,
+		"precision_numerals":       fmt.Sprintf(".0...%d and %v", maxPrec, fmtSynPrecExtra),
+		"precision_family_flags":   "every set of <= 1 flag",
+		"precision_family_widths":  fmtSynPrecWidths,
+		"flag_sequences":           flagSeqs(seqLen),
+		"flag_sequence_max_len":    seqLen,
+		"flag_sequence_widths":     fmtSynSeqWidths,
+		"flag_sequence_precisions": fmtSynSeqPrecs,
+		"verbs":                    fmtVerbs,
+		"formats_per_family":       n,
+		"formats_already_in_grid":  "skipped (each spelling is run once)",
+		"values_per_format":        len(fmtInts) + len(fmtFloats) + 3,
+		"paths":                    "fmtnum, fmtifnum (direct), --ofmt, format-values -i / -f / -n -f (in-process mlr)",
+		"oracle":                   "C99 7.19.6.1 as a function of (flag set, width value, precision value, verb): harness/pyref/strref.py k_fmt, validated against glibc (strref_validate.py)",
+	}
+}
+
+// flagSeqs: every sequence of <= n flags which is NOT one of flagSets' canonical
+// spellings: the other orders of distinct flags, and sequences with a repeated
+// flag (C: "zero or more flags (in any order)").
+func flagSeqs(n int) []string {
+	fl := "-0+ #"
+	canon := map[string]bool{}
+	for _, s := range flagSets(n) {
+		canon[s] = true
+	}
+	var out []string
+	prev := []string{""}
+	for l := 1; l <= n; l++ {
+		var cur []string
+		for _, p := range prev {
+			for i := 0; i < len(fl); i++ {
+				cur = append(cur, p+string(fl[i]))
+			}
+		}
+		for _, s := range cur {
+			if !canon[s] {
+				out = append(out, s)
+			}
+		}
+		prev = cur
+	}
+	return out
+}
+
+func inList(l []string, s string) bool {
+	for _, x := range l {
+		if x == s {
+			return true
+		}
+	}
+	return false
+}
+
+// fmtEnumerate walks the whole format enumeration in canonical order (the
+// semantic grid, then the syntax sub-families "width", "prec", "flagseq"; a
+// spelling which an earlier family already contains is skipped, so every
+// spelling has exactly one index) and materialises only the cases want()
+// accepts: every worker shard walks it, so the walk itself allocates nothing.
+func fmtEnumerate(quick bool, want func(idx int) bool, emit func(idx int, c fmtCase)) (total int) {
 	maxFlags := 2
 	widths := []string{"", "1", "5", "8"}
 	precs := []string{"", ".0", ".3"}
@@ -58,23 +165,116 @@ func fmtGrid(quick bool) []fmtCase {
 		widths = []string{"", "1", "5", "8", "12"}
 		precs = []string{"", ".0", ".3", ".10"}
 	}
-	var out []fmtCase
+	idx := 0
+	add := func(fam, fl, wd, pr string) {
+		for _, v := range fmtVerbs {
+			idx++
+			if want != nil && !want(idx) {
+				continue
+			}
+			c := fmtCase{f: "%" + fl + wd + pr + v, flags: fl, verb: v, fam: fam, width: wd, prec: pr}
+			if fam == "grid" {
+				c.size = len(fl) + len(v) - 1
+				if wd != "" {
+					c.size++
+				}
+				if pr != "" {
+					c.size++
+				}
+			} else {
+				c.size = len(c.f) - 1
+			}
+			emit(idx, c)
+		}
+	}
 	for _, fl := range flagSets(maxFlags) {
 		for _, wd := range widths {
 			for _, pr := range precs {
-				for _, v := range fmtVerbs {
-					sz := len(fl)
-					if wd != "" {
-						sz++
-					}
-					if pr != "" {
-						sz++
-					}
-					sz += len(v) - 1
-					out = append(out, fmtCase{f: "%" + fl + wd + pr + v, flags: fl, verb: v, size: sz})
-				}
+				add("grid", fl, wd, pr)
 			}
 		}
+	}
+	maxWidth, maxPrec, widthFlags, seqLen := fmtSyntaxBounds(quick)
+	if widthFlags > maxFlags {
+		panic("c15: the width family's flag sets must be a subset of the grid's")
+	}
+	wnum := make([]string, maxWidth+1)
+	for wdt := 1; wdt <= maxWidth; wdt++ {
+		wnum[wdt] = fmt.Sprint(wdt)
+	}
+	for wdt := 1; wdt <= maxWidth; wdt++ {
+		for _, fl := range flagSets(widthFlags) {
+			for _, pr := range fmtSynWidthPrecs {
+				if inList(widths, wnum[wdt]) && inList(precs, pr) {
+					continue // in the grid
+				}
+				add("width", fl, wnum[wdt], pr)
+			}
+		}
+	}
+	var synPrecs []string
+	for p := 0; p <= maxPrec; p++ {
+		synPrecs = append(synPrecs, "."+fmt.Sprint(p))
+	}
+	synPrecs = append(synPrecs, fmtSynPrecExtra...)
+	for _, pr := range synPrecs {
+		for _, fl := range flagSets(1) {
+			for _, wd := range fmtSynPrecWidths {
+				if inList(widths, wd) && inList(precs, pr) {
+					continue // in the grid
+				}
+				if wd != "" && inList(fmtSynWidthPrecs, pr) {
+					continue // in the width family (fmtSynPrecWidths are numerals <= maxWidth)
+				}
+				add("prec", fl, wd, pr)
+			}
+		}
+	}
+	for _, fl := range flagSeqs(seqLen) { // never a canonical spelling: in no other family
+		for _, wd := range fmtSynSeqWidths {
+			for _, pr := range fmtSynSeqPrecs {
+				add("flagseq", fl, wd, pr)
+			}
+		}
+	}
+	return idx
+}
+
+// fmtGrid materialises the whole enumeration (parent process: counts, evidence).
+func fmtGrid(quick bool) []fmtCase {
+	var out []fmtCase
+	fmtEnumerate(quick, nil, func(_ int, c fmtCase) { out = append(out, c) })
+	return out
+}
+
+// fmtCliBound: which formats also go through --ofmt / format-values (one
+// in-process mlr run each, ~100x the cost of a direct call). All of them call
+// the same mlrval.GetFormatter as fmtnum, so the CLI pass binds the flags and
+// the verbs to that code rather than re-exploring it: the whole semantic grid,
+// every flag sequence, and of the width / precision numeral families the
+// spellings without a flag and with the 0 flag (the one flag which is lexically
+// ambiguous with a numeral).
+func fmtCliBound(c fmtCase) bool {
+	switch c.fam {
+	case "width", "prec":
+		return c.flags == "" || c.flags == "0"
+	}
+	return true
+}
+
+// digitSymbols names the (field, position, digit) symbols a numeral exercises:
+// position = lead (first digit) / rest (any later digit).
+func digitSymbols(field, numeral string) []string {
+	var out []string
+	for i := 0; i < len(numeral); i++ {
+		pos := "rest"
+		if i == 0 {
+			pos = "lead"
+		}
+		out = append(out, fmt.Sprintf("symbol:fmt:%s-digit:%s:%c", field, pos, numeral[i]))
+	}
+	if len(numeral) > 0 {
+		out = append(out, fmt.Sprintf("symbol:fmt:%s-numeral-length:%d", field, len(numeral)))
 	}
 	return out
 }
@@ -84,7 +284,6 @@ func isIntVerb(v string) bool   { return strings.ContainsAny(v[len(v)-1:], "dxXo
 
 func fmtWorker(w *vf.Worker) {
 	trap()
-	grid := fmtGrid(w.Quick())
 	var vals [][]string
 	for _, v := range fmtInts {
 		vals = append(vals, []string{"i", v})
@@ -96,16 +295,15 @@ func fmtWorker(w *vf.Worker) {
 	nI, nF := len(fmtInts), len(fmtFloats)
 
 	var reqs []any
-	var mine []int
-	for i, c := range grid {
-		if !w.Mine(uint64(i + 1)) {
-			continue
-		}
-		mine = append(mine, i)
+	var mine []fmtCase
+	var mineIdx []uint64
+	total := fmtEnumerate(w.Quick(), func(idx int) bool { return w.Mine(uint64(idx)) }, func(idx int, c fmtCase) {
+		mine = append(mine, c)
+		mineIdx = append(mineIdx, uint64(idx))
 		reqs = append(reqs, map[string]any{"k": "fmt", "fmt": c.f, "vals": vals})
-	}
+	})
 	// one extra case: hexfmt and the documented string formats of format-values
-	extraIdx := uint64(len(grid) + 1)
+	extraIdx := uint64(total + 1)
 	doExtra := w.Mine(extraIdx)
 	strSet := []string{"abc", "", "é日", "a b", "B"}
 	strFormats := []string{"%s", "_%s", "X%sX", "[%s]", "%5s", "%-5s", "%.2s", "%5.1s", "%-3sX", "%08s"}
@@ -137,9 +335,8 @@ func fmtWorker(w *vf.Worker) {
 	viol := func(group string, c fmtCase, key, what string, replay map[string]any) {
 		w.Violation(fmt.Sprintf("%s:%02d:%s", group, c.size, key), what, replay)
 	}
-	for k, i := range mine {
-		c := grid[i]
-		w.Begin(uint64(i + 1))
+	for k, c := range mine {
+		w.Begin(mineIdx[k])
 		w.Label(func() string { return "format " + c.f })
 		var wants []string
 		if !mustUnmarshal(w, ans[k], &wants) {
@@ -148,6 +345,20 @@ func fmtWorker(w *vf.Worker) {
 		w.Count("symbol:fmt:verb:"+c.verb, 1)
 		for _, ch := range c.flags {
 			w.Count("symbol:fmt:flag:"+string(ch), 1)
+		}
+		w.Count("formats:"+c.fam, 1)
+		for _, sy := range digitSymbols("width", c.width) {
+			w.Count(sy, 1)
+		}
+		if c.prec == "." {
+			w.Count("symbol:fmt:prec-digit:none-after-period", 1)
+		} else if c.prec != "" {
+			for _, sy := range digitSymbols("prec", c.prec[1:]) {
+				w.Count(sy, 1)
+			}
+		}
+		if c.fam == "flagseq" {
+			w.Count("symbol:fmt:flag-sequence:"+c.flags, 1)
 		}
 		fm := sval(c.f)
 		group := func(fn string) string { return fmt.Sprintf("printf[%s %%%s]", fn, c.verb) }
@@ -159,9 +370,15 @@ func fmtWorker(w *vf.Worker) {
 			w.Eval(2)
 			w.Count("calls:fmtnum", 1)
 			w.Count("calls:fmtifnum", 1)
-			key := fmt.Sprintf("fmtnum(%s,%q)", v[1], c.f)
-			rp := map[string]any{"format": c.f, "value": v[1], "kind": v[0]}
+			// key and replay are built only when a cell is reported
+			var key string
+			var rp map[string]any
+			mk := func() {
+				key = fmt.Sprintf("fmtnum(%s,%q)", v[1], c.f)
+				rp = map[string]any{"format": c.f, "value": v[1], "kind": v[0]}
+			}
 			if pn != "" || pn2 != "" {
+				mk()
 				viol("crash[fmtnum]", c, key, key+": "+pn+pn2, rp)
 				continue
 			}
@@ -174,15 +391,18 @@ func fmtWorker(w *vf.Worker) {
 				w.Count("asserted:fmtnum", 1)
 				w.Count("asserted:fmtifnum", 1)
 				if !got.IsError() {
+					mk()
 					viol("printf[fmtnum non-numeric]", c, key, fmt.Sprintf("%s = %s, expected an error (fmtifnum help: 'returns the first argument as-is if the output would be an error')", key, show(render(got))), rp)
 				}
 				if got2.String() != v[1] {
+					mk()
 					viol("printf[fmtifnum non-numeric]", c, "fmtifnum"+key[6:], fmt.Sprintf("fmtifnum(%q,%q) = %s, expected the input", v[1], c.f, show(render(got2))), rp)
 				}
 			case want == "N":
 				w.Nontrivial(1)
 				w.Count("asserted:fmtnum", 1)
 				if got.IsError() {
+					mk()
 					viol("printf[fmtnum bool]", c, key, fmt.Sprintf("%s is an error; the help says fmtnum converts int/float/bool", key), rp)
 				}
 			default:
@@ -194,15 +414,22 @@ func fmtWorker(w *vf.Worker) {
 					g = "e"
 				}
 				if ok, _ := matchWant(g, want); !ok {
+					mk()
 					rp["got"], rp["expected"] = show(g), show(want)
 					viol(group("fmtnum"), c, key, fmt.Sprintf("%s = %s; C printf gives %s", key, show(g), show(want)), rp)
 				}
 				g2 := "s:" + hx(got2.String())
 				if ok, _ := matchWant(g2, want); !ok {
+					mk()
 					viol(group("fmtifnum"), c, "fmtifnum"+key[6:], fmt.Sprintf("fmtifnum(%s,%q) = %s; C printf gives %s", v[1], c.f, show(g2), show(want)), rp)
 				}
 			}
 		}
+		if !fmtCliBound(c) {
+			w.Count("formats-direct-only:"+c.fam, 1)
+			continue
+		}
+		w.Count("formats-cli-bound:"+c.fam, 1)
 		// ---- the same format through the CLI
 		rec := ""
 		for vi, v := range vals[:nI+nF] {
@@ -333,7 +560,7 @@ func fmtWorker(w *vf.Worker) {
 		}
 	}
 	if len(mine) > 0 {
-		c := grid[mine[len(mine)-1]]
+		c := mine[len(mine)-1]
 		w.Sample(map[string]any{"family": "fmt", "format": c.f, "values": len(vals), "through": "fmtnum, fmtifnum, --ofmt, format-values -i/-f/-n"})
 	}
 }
